@@ -280,6 +280,49 @@ def ledger_only(ctx, cfg, fs, rule):
     ctx.ob(rule, 'pick_winner:reads-ledger-only', rd == {'item_state'},
            'pick_winner decides from %s of the two forks (must be the consumption ledger only: no recorded position, scope or path may bias which alternative wins)' % sorted(rd), where=b.where(), cfg=cfg)
 
+def pred_conditions(x):
+    """the calls that must ALL have returned true for the bool-valued closure x to return true (`a() && b()`), or None
+    when the closure is not such a conjunction"""
+    true_sites = []
+    for i, k, st in x.stmts():
+        if st['k'] == 'assign' and st['lhs'] == [0, []]:
+            c = op_const(st['rv'].get('op', ['?'])) if st['rv']['k'] == 'use' else None
+            if c is not None and c.get('v') is False:
+                continue
+            if c is not None and c.get('v') is True:
+                true_sites.append((i, None)); continue
+            return None
+    for c in x.calls():
+        if c.dest == [0, []]:
+            true_sites.append((c.bb, c))
+    if len(true_sites) != 1:
+        return None
+    (i, last) = true_sites[0]
+    out = [last] if last is not None else []
+    for (a, s_) in x.transitive_control_deps(i):
+        sw = Switch(x, a)
+        if sw.kind != 'bool' or s_ != sw.target(True) or not sw.roots or not all(r.kind == 'call' and not r.path for r in sw.roots):
+            return None
+        out += [r.call for r in sw.roots]
+    return out
+
+def filtered_for_each(fs, b, x):
+    """when closure x is the argument of `for_each` in b and the receiver is `filter(pred)`: [(filter call, pred body)]"""
+    out = []
+    for fe in b.calls():
+        if not fe.is_(r'Iterator>?::for_each$') or len(fe.args) < 2:
+            continue
+        if not any(r.kind == 'agg' and r.extra.get('closure') == x.path for r in provenance(b, fe.args[1], fe.bb, 'term', through=None)):
+            continue
+        for r in provenance(b, fe.args[0], fe.bb, 'term', through=None):
+            if r.kind == 'call' and r.call.is_(r'Iterator>?::filter$'):
+                for q in provenance(b, r.call.args[1], r.call.bb, 'term', through=None):
+                    if q.kind == 'agg' and q.extra.get('closure'):
+                        pred = fs.bodies.get(q.extra['closure']) if hasattr(fs, 'bodies') else None
+                        if pred is not None:
+                            out.append((r.call, pred))
+    return out
+
 def save_conflicts(ctx, cfg, fs):
     """the winner marks as Conflict exactly the items that are still PRESENT in it and were PARSED by the loser, over the
     whole ledger: an item that was already consumed before the choice (parsed in both forks) must stay consumed, and no
@@ -287,7 +330,8 @@ def save_conflicts(ctx, cfg, fs):
     b = ctx.look(fs.one(r'^args::inner::State::save_conflicts$'))
     fam = fs.family(b)
     marks = [(x, i, k, st) for x in fam for i, k, st in x.stmts() if st['k'] == 'assign' and st['rv']['k'] == 'agg' and st['rv'].get('variant') == 'Conflict' and st['rv'].get('adt', '').endswith('ItemState')]
-    ok = bool(marks); why = []
+    ok = bool(marks); why = []; accounted = set()
+    NOZIP_ = DEFAULT_THROUGH + [r'Iterator>?::(next|enumerate)$', r'slice::<impl \[T\]>::(iter|iter_mut)$', r'IntoIterator>?::into_iter$']
     ITERS = DEFAULT_THROUGH + [r'Iterator>?::(next|zip|enumerate)$', r'slice::<impl \[T\]>::(iter|iter_mut)$', r'IntoIterator>?::into_iter$']
     for (x, i, k, st) in marks:
         conds = {}
@@ -309,10 +353,30 @@ def save_conflicts(ctx, cfg, fs):
                             for z in provenance(x, q.call.args[ix_], q.call.bb, 'term', through=NOZIP):
                                 if z.kind in ('param', 'upvar'): side.add(z.what)
                     conds.setdefault(r.call.name.split('::')[-1], set()).update(side)
-        good = conds.get('present') == {'self'} and conds.get('parsed') == {'loser'}
+        # iterator form: `zip(..).filter(pred).for_each(mark)` - the predicate of the filter is the guard of the mark
+        for (fc, pred) in filtered_for_each(fs, b, x):
+            pc = pred_conditions(pred)
+            if pc is None:
+                conds.setdefault('unreadable filter predicate', set()).add('?')
+                continue
+            accounted.add(fc.bb)
+            for c_ in pc:
+                side = set()
+                if not c_.is_(r'^args::ItemState::(present|parsed)$'):
+                    conds.setdefault('other:' + c_.name.split('::')[-1], set()).add('?')
+                    continue
+                for q in provenance(pred, c_.args[0], c_.bb, 'term', through=DEFAULT_THROUGH):
+                    comp = [p_ for p_ in q.path if p_ in ('0', '1')]
+                    if q.kind == 'param' and comp:
+                        for zc in [z_ for z_ in provenance(b, fc.args[0], fc.bb, 'term', through=None) if z_.kind == 'call' and z_.call.is_(r'Iterator>?::zip$')]:
+                            for z in provenance(b, zc.call.args[int(comp[-1])], zc.call.bb, 'term', through=NOZIP_):
+                                if z.kind in ('param', 'upvar'): side.add(z.what)
+                conds.setdefault(c_.name.split('::')[-1], set()).update(side)
+        good = conds.get('present') == {'self'} and conds.get('parsed') == {'loser'} and set(conds) == {'present', 'parsed'}
         ok &= good
         why.append('guarded by %s' % {k_: sorted(v_) for k_, v_ in conds.items()})
-    skips = [c.name.split('::')[-1] for x in fam for c in x.calls() if c.is_(r'Iterator>?::(skip|skip_while|take|take_while|step_by|rev|filter)$')]
+    skips = [c.name.split('::')[-1] for x in fam for c in x.calls() if c.is_(r'Iterator>?::(skip|skip_while|take|take_while|step_by|rev|filter)$')
+             and not (x is b and c.bb in accounted)]
     ctx.ob('C.conflicts', 'save_conflicts:present-in-winner-and-parsed-by-loser', ok and not skips,
            'save_conflicts marks an item as Conflict only when it is present in the winner and parsed by the loser (%s), visiting every position (adaptors: %s)' % ('; '.join(why) or 'no Conflict mark found', skips or 'none'), where=b.where(), cfg=cfg)
 
